@@ -26,7 +26,7 @@ ASSUMPTIONS = [
     "members' own behaviour is the oracle for the class (the class adds union / instantiation / equality only)",
 ]
 
-NAMES = ["a", "b", "c", "d", "e"]
+NAMES = ["a", "b", "c", "d", "e", "_p", "_q"]     # single-underscore names are members like any other
 LOOKALIKE = ["AB", "S.XY", "R.UV", "SX"]
 
 
@@ -184,6 +184,8 @@ def check(case, ctx):
         labels.add("equal" if should_eq else "different")
         labels.add("pair:" + case["relation"])
         nontrivial = "nested-key-reported" in labels and sem.typed(o1) != sem.typed(o2)
+    if any(nm.startswith("_") for nm in ms):
+        labels.add("underscore-member")
     ctx.done(case, nontrivial, labels)
 
 
